@@ -594,6 +594,17 @@ static void gen_synthetic(char *s, int cap) {
   unsigned c = 1 + rng_below(4); if (c > budget) c = 1;
   off = app(s, off, cap, "%spu:%u", first ? "" : " ", c);
 }
+/* a description that does not fit lstopo's 1024-byte first buffer: a few hundred PUs with an explicit, incompressible index list */
+static void gen_synthetic_long(char *s, int cap) {
+  unsigned cores = 130 + rng_below(60), n = cores * 2, *perm = malloc(n * sizeof *perm);
+  for (unsigned i = 0; i < n; i++) perm[i] = i;
+  for (unsigned i = n - 1; i > 0; i--) { unsigned j = rng_below(i + 1), x = perm[i]; perm[i] = perm[j]; perm[j] = x; }
+  int off = app(s, 0, cap, rng_chance(50) ? "pack:2 core:%u pu:2(indexes=" : "numa:2 core:%u pu:2(indexes=", cores / 2);
+  n = (cores / 2) * 2 * 2;
+  for (unsigned i = 0, k = 0; k < n; i++) { if (perm[i] >= n) continue; off = app(s, off, cap, "%s%u", k ? "," : "", perm[i]); k++; }
+  app(s, off, cap, ")");
+  free(perm);
+}
 static char **xml_list; static unsigned nxml;
 static void read_xml_list(void) {
   const char *p = getenv("VERIF_TOOLS_XML"); if (!p) return;
@@ -629,7 +640,8 @@ static int gen_load(char mode, int want_xml) {
   char line[8192], restr[600] = "", mt[2048];
   for (int tries = 0; tries < 20; tries++) {
     char kind = (want_xml && nxml) ? 'X' : 'S'; char syn[2048]; const char *input;
-    if (kind == 'X') input = xml_list[rng_below(nxml)]; else { gen_synthetic(syn, sizeof syn); input = syn; }
+    if (kind == 'X') input = xml_list[rng_below(nxml)];
+    else { if (mode == 'L' && rng_chance(12)) { gen_synthetic_long(syn, sizeof syn); stat_hit("lstopo:long-synthetic-input"); } else gen_synthetic(syn, sizeof syn); input = syn; }
     if (load_topology(kind, mode, NULL, input) < 0) continue;
     restr[0] = 0;
     if ((mode == 'A' || mode == 'D') && rng_chance(28)) { gen_restrict(restr, sizeof restr); if (load_topology(kind, mode, restr, input) < 0) continue; }
